@@ -7,6 +7,7 @@ from mitmproxy import http
 from mitmproxy.addons import serverplayback
 from mitmproxy.flow import Error
 from mitmproxy.net.http import multipart
+from mitmproxy.net.http import headers as mhdrs
 from mitmproxy.test import taddons, tflow
 
 warnings.simplefilter("ignore", DeprecationWarning)
@@ -191,6 +192,17 @@ def opts_fields(o):
     return [bits, names(o["ignore_params"]), names(o["ignore_payload_params"]), names(o["use_headers"])]
 
 
+def boundary_of(r):
+    """the boundary parameter as Request._get_multipart_form / decode_multipart obtain it (parse_content_type is fed as
+    data; splitting the body at the boundary and reading the parts is done by the Lean transcription of decode_multipart)"""
+    ct = r.headers.get("content-type", "")
+    if "multipart/form-data" not in ct.lower(): return "N"
+    try:
+        return eb(mhdrs.parse_content_type(ct)[2]["boundary"].encode("ascii"))
+    except (KeyError, UnicodeError, TypeError):
+        return "N"
+
+
 def req_fields(f):
     """the request parts as the library parsers deliver them (urlparse / parse_qsl / multipart / urlencoded / Headers)"""
     r = f.request
@@ -202,7 +214,7 @@ def req_fields(f):
     return [eb(_b(str(r.scheme))), eb(_b(str(r.method))), eb(_b(str(path))),
             epairs([(_b(k), _b(v)) for k, v in qs]), eb(_b(r.pretty_host)), str(r.port),
             "N" if r.raw_content is None else eb(r.raw_content),
-            epairs(list(r.multipart_form.items(multi=True))),
+            boundary_of(r),
             epairs([(_b(k), _b(v)) for k, v in r.urlencoded_form.items(multi=True)]),
             epairs(hdrs)]
 
@@ -223,6 +235,8 @@ class Check(PropertyCheck):
                   "with that key, in recording order`). With the real key inside the model (keyOf = transcription of the field "
                   "selection of _hash for every combination of ignore_content/host/port/params/payload_params/use_headers and "
                   "multipart/urlencoded/raw bodies): key_eq_iff_fields, agreeing_parts_same_key, content_agree_cases, "
+                  "header_lookup_spec (Headers.get inside the model: case-insensitive names, folding), decode_multipart inside keyOf "
+                  "as well (C34's transcription: the model reads the form fields out of the raw body), "
                   "differing_field_different_key (requests differing in a non-ignored multipart field never share a key), agreeing_request_served_next (after any history a request is served exactly the first pending recording that "
                   "has a response and agrees with it on all non-ignored parts), served_only_if_parts_agree. Tie: random "
                   "histories run through the real addon and through the model twice — once with the equality classes of the "
@@ -243,8 +257,9 @@ class Check(PropertyCheck):
                   "server_replay_refresh on, and only then, the headers Response.refresh() may rewrite (date, expires, "
                   "last-modified, set-cookie) are left out; after every event every recording must still hold its response. "
                   "trusted: SHA-256/repr injectivity on the key lists built by _hash (keyOf is the list before repr); "
-                  "urllib.parse.urlparse/parse_qsl and the multipart/urlencoded decoders deliver the request parts that keyOf "
-                  "consumes (fed as data); Headers.get is transcribed (hdrGet: ASCII-case-insensitive names, \", \" folding; "
+                  "urllib.parse.urlparse/parse_qsl, the urlencoded decoder and parse_content_type (boundary) deliver request parts "
+                  "that keyOf consumes (fed as data); decode_multipart is inside the model (C34's transcription, imported: keyOf "
+                  "reads the parts out of the raw body itself); Headers.get is transcribed (hdrGet: ASCII-case-insensitive names, \", \" folding; "
                   "header_lookup_spec) and consumes the raw header fields; `host` of the statement is read as pretty_host (Host header "
                   "preferred); (f) hand-written multipart parts whose Content-Disposition is legal but known to be overlooked by "
                   "mitmproxy's decoder (unquoted name token, name*=, upper-case parameter name, Content-Disposition not the first "
@@ -277,7 +292,8 @@ class Check(PropertyCheck):
                     "mitmproxy.addons.serverplayback:ServerPlayback.count",
                     "mitmproxy.addons.serverplayback:ServerPlayback.configure",
                     "mitmproxy.http:Headers._kconv", "mitmproxy.http:Headers._reduce_values",
-                    "mitmproxy.coretypes.multidict:_MultiDict.get_all"]
+                    "mitmproxy.coretypes.multidict:_MultiDict.get_all",
+                    "mitmproxy.net.http.multipart:decode_multipart", "mitmproxy.http:Request._get_multipart_form"]
     trusted_base = ["hashlib.sha256 and repr() are injective on the key lists built by _hash",
                     "urllib.parse.urlparse/parse_qsl, mitmproxy.net.http.multipart/url decoders, Headers.get"]
     parallel = False
